@@ -53,6 +53,10 @@ func parseArgs(s string) (map[string]string, error) {
 		m := strings.Split(arg, "=")
 		switch len(m) {
 		case 2:
+			if m[1] == "" {
+				// esmtp-value is never empty; "KEY=" must not be taken for "KEY"
+				return nil, fmt.Errorf("empty value in arg string: %q", arg)
+			}
 			argMap[upperASCII(m[0])] = m[1]
 		case 1:
 			argMap[upperASCII(m[0])] = ""
